@@ -26,8 +26,10 @@ CONSTANTS N,      \* number of sources
           DROPFIRST, \* TRUE: a worker drops its reader (temp file) before sending FileSummary
           REGATOMIC, \* TRUE: a temp file is created and listed under one NAMED_TEMP_FILES lock,
                      \*       and the handler closes the list (no creation afterwards)
-          EPIPE      \* TRUE: a write to standard output may fail (`s4 ... | head`): the print path then
+          EPIPE,     \* TRUE: a write to standard output may fail (`s4 ... | head`): the print path then
                      \*       disconnects that source's channel and carries on
+          SWEEP      \* TRUE: after processing_loop has returned, main closes NAMED_TEMP_FILES and removes every
+                     \*       file still listed before the process exits (workers are not joined)
 
 W == 1..N
 
@@ -41,7 +43,7 @@ VARIABLES dts, shape,       \* ground truth (chosen in Init, never changes)
           pending,          \* map_pathid_datum: message index on hand, 0 = none
           fi, fic,          \* map_pathid_received_fileinfo, and "cleared"
           np,               \* number of messages of w printed so far
-          cpc,              \* coordinator pc: "loop","sel","got","after","done"
+          cpc,              \* coordinator pc: "loop","sel","got","after","done" (processing_loop returned),"swept"
           got,              \* <<w, script position>> just dequeued (0 = RecvError)
           recvErr, errs,    \* chan_recv_err, error_count
           ret,              \* return value of processing_loop (TRUE = exit status 0)
@@ -249,9 +251,20 @@ CAfter ==
   /\ UNCHANGED <<dts, shape, wpc, wi, ri, closed, rdrop, live, pending, fi, fic, np, got,
                  recvErr, errs, disk, listed, hpc, exitEarly, ntfClosed, exited>>
 
+\* main, after processing_loop: remove_named_temp_files() -- takes the NAMED_TEMP_FILES write lock (waits for a
+\* worker between create and register and for the handler), closes the list, removes what is listed
+CSweep ==
+  /\ Alive /\ cpc = "done" /\ SWEEP
+  /\ ~HandlerHoldsNtf /\ ~WorkerHoldsNtf
+  /\ disk' = disk \ listed
+  /\ ntfClosed' = (ntfClosed \/ REGATOMIC)
+  /\ cpc' = "swept"
+  /\ UNCHANGED <<dts, shape, wpc, wi, ri, closed, rdrop, live, pending, fi, fic, np, got,
+                 recvErr, errs, ret, listed, hpc, exitEarly, exited>>
+
 \* main returns: the process exits, every other thread is killed where it is
 ProcExit ==
-  /\ Alive /\ cpc = "done"
+  /\ Alive /\ cpc = (IF SWEEP THEN "swept" ELSE "done")
   /\ exited' = TRUE
   /\ UNCHANGED <<dts, shape, wpc, wi, ri, closed, rdrop, live, pending, fi, fic, np, cpc, got,
                  recvErr, errs, ret, disk, listed, hpc, exitEarly, ntfClosed>>
@@ -306,7 +319,7 @@ HFlag ==
 -----------------------------------------------------------------------------
 Worker(w) == WCreate(w) \/ WCreateRefused(w) \/ WRegister(w) \/ WDrop(w) \/ WSend(w) \/ WReturn(w)
 Coord == CExitEarly \/ CEnterSel \/ (\E w \in W : CDequeue(w) \/ CDisc(w)) \/ CNone
-         \/ CProcess \/ CPrint \/ CPrintError \/ CAfter \/ ProcExit
+         \/ CProcess \/ CPrint \/ CPrintError \/ CAfter \/ CSweep \/ ProcExit
 Handler == HLock \/ HClear \/ HNtfLock \/ HRemove \/ HFlag
 
 Next == (\E w \in W : Worker(w)) \/ Coord \/ Sigint \/ Handler
@@ -338,7 +351,7 @@ NoSignal == hpc = "idle"
 
 \* C06: without a signal the loop ends only when every message of every source
 \* has been printed (with PrintIsEarliest: the output is the unique stable merge)
-AllPrintedAtEnd == (cpc \in {"after", "done"} /\ NoSignal /\ ~EPIPE) => \A w \in W : np[w] = NMsg(w)
+AllPrintedAtEnd == (cpc \in {"after", "done", "swept"} /\ NoSignal /\ ~EPIPE) => \A w \in W : np[w] = NMsg(w)
 
 \* C06: the "nothing to poll" exit is unreachable in a fault-free run
 NoneUnreachable == (cpc = "sel" /\ NoSignal) => Pollable # {}
@@ -359,7 +372,7 @@ NoLeakUnregistered == (exited /\ hpc # "idle") => disk \subseteq listed
 NoLeakRegistered   == (exited /\ hpc # "idle") => disk \cap listed = {}
 
 \* C06/C18 liveness
-Terminates == <>[](cpc = "done")
+Terminates == <>[](cpc \in {"done", "swept"})
 SigintLeadsToExit == (hpc = "start") ~> exited
 Exits == <>exited
 =============================================================================
